@@ -3,8 +3,10 @@ package main
 import (
 	"fmt"
 	"go/ast"
+	"go/constant"
 	"go/token"
 	"go/types"
+	"regexp"
 	"sort"
 	"strings"
 
@@ -503,6 +505,11 @@ func checkC16(c *Ctx) {
 								guard = "table: " + why
 							}
 						}
+						if guard == "" && fd != nil && fd.Body != nil {
+							if idx, exact := constant.Int64Val(tv.Value); exact {
+								guard = c.submatchGuard(pk, info, fd.Body, x.X, int(idx))
+							}
+						}
 						r.CheckD(guard != "", "R16c-index", key, c.P.Pos(x.Pos()), "constant index without a dominating length guard: a descriptor with fewer elements crashes the plugin", map[string]any{"guard": guard})
 					}
 					return true
@@ -986,4 +993,77 @@ func visitedUnmarkAfterMark(c *Ctx, rid string) {
 		}
 	}
 	r.Count("visited-set removals checked", n)
+}
+
+// submatchGuard: base is the element variable of a range over the result of (*regexp.Regexp).FindAll[String]Submatch
+// on a package-level regexp compiled from a constant pattern. Every element of that result is one match with
+// exactly 1+NumSubexp entries, so a constant index up to the number of capture groups cannot be out of range.
+// (The pattern is parsed by the checker; nothing of the repository runs.)
+func (c *Ctx) submatchGuard(pk *packages.Package, info *types.Info, body *ast.BlockStmt, base ast.Expr, idx int) string {
+	id, ok := ast.Unparen(base).(*ast.Ident)
+	if !ok {
+		return ""
+	}
+	obj := info.ObjectOf(id)
+	var ranged ast.Expr
+	ast.Inspect(body, func(n ast.Node) bool {
+		if rs, ok := n.(*ast.RangeStmt); ok {
+			if v, ok := rs.Value.(*ast.Ident); ok && info.ObjectOf(v) == obj {
+				ranged = rs.X
+			}
+		}
+		return true
+	})
+	if ranged == nil {
+		return ""
+	}
+	call, _ := ast.Unparen(ranged).(*ast.CallExpr)
+	if call == nil {
+		if rid, ok := ast.Unparen(ranged).(*ast.Ident); ok {
+			call, _ = localDef(info, body, rid).(*ast.CallExpr)
+		}
+	}
+	if call == nil {
+		return ""
+	}
+	cal := Callee(info, call)
+	if cal == nil || cal.Pkg() == nil || cal.Pkg().Path() != "regexp" || (cal.Name() != "FindAllStringSubmatch" && cal.Name() != "FindAllSubmatch") {
+		return ""
+	}
+	sel, ok := call.Fun.(*ast.SelectorExpr)
+	if !ok {
+		return ""
+	}
+	var reObj types.Object
+	switch x := ast.Unparen(sel.X).(type) {
+	case *ast.Ident:
+		reObj = info.ObjectOf(x)
+	case *ast.SelectorExpr:
+		reObj = info.ObjectOf(x.Sel)
+	}
+	rv, ok := reObj.(*types.Var)
+	if !ok || rv.Pkg() == nil || rv.Parent() != rv.Pkg().Scope() {
+		return ""
+	}
+	init, ipk := c.W.pkgVarInit(rv)
+	if init == nil {
+		return ""
+	}
+	icall, ok := ast.Unparen(init).(*ast.CallExpr)
+	if !ok || len(icall.Args) != 1 {
+		return ""
+	}
+	ical := Callee(ipk.TypesInfo, icall)
+	if ical == nil || ical.Pkg() == nil || ical.Pkg().Path() != "regexp" || (ical.Name() != "MustCompile" && ical.Name() != "MustCompilePOSIX") {
+		return ""
+	}
+	tv, ok := ipk.TypesInfo.Types[icall.Args[0]]
+	if !ok || tv.Value == nil || tv.Value.Kind() != constant.String {
+		return ""
+	}
+	re, err := regexp.Compile(constant.StringVal(tv.Value))
+	if err != nil || idx > re.NumSubexp() {
+		return ""
+	}
+	return fmt.Sprintf("element of %s.%s on %s (%d capture groups): every match has %d entries", "regexp", cal.Name(), rv.Name(), re.NumSubexp(), re.NumSubexp()+1)
 }
